@@ -170,7 +170,7 @@ class GW(StoreW):
             # matched: a base key that FITS the mechanism and a well-formed (ordinary key) template, so that the call gets as far as the mechanism parameter;
             # the parameter's data lengths are the hostile part (0, 1, unaligned, huge)
             cand = [(x, self.info.get(x.ref, {}).get("kind")) for x in self.live_objs(pid)]
-            cand = [(x, kd) for x, kd in cand if kd in ("aes", "des3", "generic", "ec_priv")]
+            cand = [(x, kd) for x, kd in cand if kd in ("aes", "des3", "generic", "ec_priv", "dh_priv", "dh_priv")]
             live_ = self.live_sessions(pid)
             if not cand or not live_: return False
             ko, kd = r.choice(cand); ss_ = [x for x in live_ if x.tok == ko.tok] or live_
@@ -178,6 +178,17 @@ class GW(StoreW):
             if kd == "aes": mm = r.choice([mechs.kdsd(K.CKM_AES_ECB_ENCRYPT_DATA, objs.rnd(r, dl)), mechs.aes_cbc_encrypt_data(objs.rnd(r, 16), objs.rnd(r, dl)), mechs.kdsd(K.CKM_CONCATENATE_BASE_AND_DATA, objs.rnd(r, dl)), mechs.kdsd(K.CKM_CONCATENATE_DATA_AND_BASE, objs.rnd(r, dl))])
             elif kd == "des3": mm = r.choice([mechs.kdsd(K.CKM_DES3_ECB_ENCRYPT_DATA, objs.rnd(r, dl)), mechs.des_cbc_encrypt_data(K.CKM_DES3_CBC_ENCRYPT_DATA, objs.rnd(r, 8), objs.rnd(r, dl))])
             elif kd == "generic": mm = r.choice([mechs.kdsd(K.CKM_CONCATENATE_BASE_AND_DATA, objs.rnd(r, dl)), mechs.kdsd(K.CKM_CONCATENATE_DATA_AND_BASE, objs.rnd(r, dl))])
+            elif kd == "dh_priv":
+                # the peer's public value is the whole mechanism parameter: the degenerate values a DH implementation must refuse (0, 1, p-1, p, p+1), empty, short, over-long
+                prime = None
+                for op_ in self.ops.get(tid, []):
+                    if op_.get("out") == ko.ref and op_.get("f") == "C_CreateObject":
+                        for e_ in op_["tmpl"]:
+                            if e_[0] == K.CKA_PRIME: prime = int(e_[2], 16)
+                nb = 128
+                vals = [b"", b"\x00", b"\x01", b"\x02", bytes(nb), bytes(nb - 1) + b"\x01", objs.rnd(r, nb), objs.rnd(r, 1), objs.rnd(r, 300)]
+                if prime: vals += [(prime - 1).to_bytes(nb, "big"), (prime - 1).to_bytes(nb, "big"), prime.to_bytes(nb, "big"), (prime + 1).to_bytes(nb + 1, "big")[-nb - 1:].lstrip(b"\x00") or b"\x00"]
+                mm = mechs.simple(K.CKM_DH_PKCS_DERIVE, r.choice(vals))
             else: mm = mechs.ecdh1(r.choice([b"", b"\x04", objs.rnd(r, 33), objs.rnd(r, 65), bytes.fromhex(objs.POOL["ec"][0]["q"]), b"\x04" + bytes(64), objs.rnd(r, 300)]))
             new = self.new_obj()
             tm = [A_bytes(K.CKA_LABEL, objs.label(new)), A_ulong(K.CKA_CLASS, K.CKO_SECRET_KEY), A_ulong(K.CKA_KEY_TYPE, r.choice([K.CKK_GENERIC_SECRET, K.CKK_AES, K.CKK_DES3])), A_bool(K.CKA_TOKEN, r.random() < 0.3), A_bool(K.CKA_PRIVATE, False),
